@@ -12,13 +12,20 @@ From Coq Require Import Sorting.Sorted Sorting.Permutation.
     every kept range is a candidate (gather_sub); the result is ordered by sortByOffsetSlice
     (gather_sorted: file-name ranges first, then by offset); ranges of the same class never overlap
     (gather_nonoverlap); and nothing is dropped without reason: every dropped candidate starts inside
-    a kept range of its class (completeness) *)
+    a kept range of its class that sorts before it (completeness) *)
 Theorem C02_gather_spec : forall nl cands, cands <> [] ->
   let out := gather nl cands in
   incl out cands /\ StronglySorted le_key out /\ StronglySorted class_disjoint out /\
-  (forall c, In c cands -> In c out \/ exists k, In k out /\ covers k c).
+  (forall c, In c cands -> In c out \/ exists k, In k out /\ covers k c /\ le_key k c).
 Proof. exact gather_spec. Qed.
 Print Assumptions C02_gather_spec.
+
+(** "prefer longer candidates if starting at same position" (sortByOffsetSlice.Less): a kept range is the longest
+    candidate of its class starting at its offset — e.g. or(foo, foobar) reports foobar *)
+Theorem C02_gather_prefers_longer : forall nl cands k c, cands <> [] ->
+  In k (gather nl cands) -> In c cands -> c_fn c = c_fn k -> c_off c = c_off k -> c_sz c <= c_sz k.
+Proof. exact gather_prefers_longer. Qed.
+Print Assumptions C02_gather_prefers_longer.
 
 (** no text atom contributed: exactly one synthetic range, the whole file name *)
 Theorem C02_gather_no_candidates : forall nl, gather nl [] = [{| c_fn := true; c_off := 0; c_sz := nl |}].
